@@ -123,7 +123,7 @@ def check(ctx):
                                   % (codec, kind, name, 'None' if kind == 'Enumerated' else '(None, None)',
                                      '; sibling entry point(s) %s of the same class do have it' % sorted(set(others)) if others else ''),
                                   stmt='no unknown-item path')
-    if n1 < 12:
+    if n1 < 8:
         raise AnalysisError('C07.R1 examined only %d entry points' % n1)
     # CHOICE: the unknown alternative is consumed by its length
     ber = model.mod(RELS['ber'])
@@ -148,14 +148,14 @@ def check(ctx):
             ctx.violation('C07.R1', m.rel, f, '%s::Choice.%s' % (m.rel, fn), 'an unknown CHOICE alternative is not skipped by the length determinant read for it', stmt='skip unknown alternative')
     # SEQUENCE/SET: with a definite length the decoder resumes at offset + length whatever it found inside
     f = ber.classes['MembersType'].methods['decode_content']
-    ps = sem.paths(f, positional=True)
+    ps = sem.paths(f, positional=True, resolver=sem.class_resolver(ber.classes['MembersType']))
     if ps is None:
         ctx.instance('C07.R1', 'ber.MembersType.decode_content returns end_offset', 'undecided', 'too many paths', nontrivial=False, node=f, file=ber.rel)
     else:
         want = sem.ctext(sem.parse_expr('ARG1 + ARG2'))
         definite = [p for p in ps if p.outcome[0] == 'return' and p.has('ARG2 is None', False) and isinstance(p.outcome[3], ast.Tuple)]
         # (when decode_members reports that the data ran out it already stopped at the end of the contents)
-        ran_out = lambda p: any(c[1] and 'decode_members(' in c[0] and c[0].endswith('[1]') for c in p.conds)
+        ran_out = lambda p: any(c[1] and re.match(r'^self\.\w+\(.*\)\[\d\]$', c[0]) for c in p.conds)     # the flag element of a member-decoding helper's result
         ok = any(sem.ctext(p.outcome[3].elts[-1]) == want for p in definite) and all(sem.ctext(p.outcome[3].elts[-1]) == want or ran_out(p) for p in definite)
         ctx.instance('C07.R1', 'ber.MembersType.decode_content returns offset + length on the %d definite-length paths (unknown trailing TLVs skipped)' % len(definite), 'ok' if ok else 'VIOLATION', node=f, file=ber.rel)
         if not ok:
@@ -307,12 +307,40 @@ def check(ctx):
     if not ok:
         ctx.violation('C07.R4', ber.rel, f, '%s::MembersType.decode_content' % ber.rel,
                       'additions must be decoded with ignore_missing=True (an older encoding lacks them) and root members without it', stmt='lenient additions')
-    dm = ber.classes['MembersType'].methods['decode_members']
-    # some path of the member loop leaves it (break / return) under ignore_missing instead of raising
-    dps = sem.with_loop_bodies(sem.paths(dm) or [])
-    ok = any(p.outcome[0] in ('break', 'return') and p.has('ignore_missing', True) for p in dps) and \
-        not any(p.outcome[0] == 'raise' and p.has('ignore_missing', True) and p.outcome[1] not in ('reraise', 'e') for p in dps)
-    ctx.instance('C07.R4', 'ber.MembersType.decode_members: a missing addition ends the scan without error', 'ok' if ok else 'VIOLATION', node=dm, file=ber.rel)
+    # the flag the additions call sets is followed into the method it is passed to and the helpers that receive it
+    mcls = ber.classes['MembersType']
+    fam = []
+    if adds:
+        flag_kw = [k.arg for k in adds[0].keywords if isinstance(k.value, ast.Constant) and k.value.value is True]
+        r0 = mcls.find_method(adds[0].func.attr) if isinstance(adds[0].func, ast.Attribute) else None
+        if r0 and flag_kw:
+            work = [(r0[1], flag_kw[0])]
+            while work and len(fam) < 8:
+                g, fl = work.pop()
+                if any(g is x for x, _ in fam):
+                    continue
+                fam.append((g, fl))
+                for c_ in walk_no_nested(g):
+                    if isinstance(c_, ast.Call) and isinstance(c_.func, ast.Attribute) and isinstance(c_.func.value, ast.Name) and c_.func.value.id == 'self':
+                        r_ = mcls.find_method(c_.func.attr)
+                        if r_ is None:
+                            continue
+                        gp = [a.arg for a in r_[1].args.args][1:]
+                        for pn, a_ in zip(gp, c_.args):
+                            if isinstance(a_, ast.Name) and a_.id == fl:
+                                work.append((r_[1], pn))
+                        for k_ in c_.keywords:
+                            if isinstance(k_.value, ast.Name) and k_.value.id == fl and k_.arg:
+                                work.append((r_[1], k_.arg))
+    dm = fam[0][0] if fam else ber.classes['MembersType'].methods['decode_members']
+    leaves = raises = False
+    for g, fl in fam:
+        dps = sem.with_loop_bodies(sem.paths(g) or [])
+        leaves = leaves or any(p.outcome[0] in ('break', 'return') and p.has(fl, True) for p in dps)
+        raises = raises or any(p.outcome[0] == 'raise' and p.has(fl, True) and p.outcome[1] not in ('reraise', 'e') for p in dps)
+    ok = leaves and not raises
+    ctx.instance('C07.R4', 'ber.MembersType.%s: a missing addition ends the scan without error (%d functions receive the flag)' % (dm.name, len(fam)),
+                 'ok' if ok else 'VIOLATION', node=dm, file=ber.rel)
     if not ok:
         ctx.violation('C07.R4', ber.rel, dm, '%s::MembersType.decode_members' % ber.rel, 'with ignore_missing a missing mandatory addition must not raise', stmt='ignore_missing handling')
 
